@@ -42,6 +42,9 @@ type k2Scenario struct {
 	Horizon     int        `json:"horizon"`                         // depth bound of the search (actions incl. gate releases)
 	MaxInFlight int        `json:"max_in_flight"`
 	Alphabet    []k2Action `json:"-"`
+	// Script, if set: no search - the fixed action list is executed once and drained (confirmation
+	// of a finding at the production channel capacity)
+	Script []string `json:"-"`
 }
 
 type k2Replay struct {
@@ -62,6 +65,8 @@ type k2Ctx struct {
 	gateEdges                                    map[string]int64
 	outcomes                                     map[string]bool
 	sample                                       []string
+	remote                                       bool
+	viols                                        []k2Viol
 }
 
 func k2NewCtx(r *vk.Run, prop string, sc k2Scenario, c09, c13 bool) *k2Ctx {
@@ -75,6 +80,13 @@ func (c *k2Ctx) id(a k2Action) int {
 	c.acts = append(c.acts, a)
 	c.actID[a.String()] = len(c.acts) - 1
 	return len(c.acts) - 1
+}
+
+func k2Short(names []string) string {
+	if len(names) <= 40 {
+		return fmt.Sprint(names)
+	}
+	return fmt.Sprintf("%v ... (%d actions in all, the elided ones repeat %s) ... %v", names[:6], len(names), names[6], names[len(names)-3:])
 }
 
 func (c *k2Ctx) names(hist []int, op int) []string {
@@ -96,9 +108,22 @@ func (c *k2Ctx) viol(clause, site, msg string, hist []int, op int) {
 		infix = "unreachable-registered/"
 		fam = "family (b): registered spaces, not reachable from NewWorkSpace"
 	}
-	c.r.Violation(c.prop+"/"+clause+"/"+infix+"skchia:"+site,
-		fmt.Sprintf("%s [skchia keeper, scenario %s, %s, initial=%s cfg=%s chan_cap=%d] after %v", msg, c.sc.Name, fam, c.sc.Initial, c.sc.Cfg, c.sc.ChanCap, c.names(hist, op)),
-		k2Replay{c.sc, c.names(hist, op)})
+	v := k2Viol{FP: c.prop + "/" + clause + "/" + infix + "skchia:" + site,
+		What: fmt.Sprintf("%s [skchia keeper, scenario %s, %s, initial=%s cfg=%s chan_cap=%d] after %s", msg, c.sc.Name, fam, c.sc.Initial, c.sc.Cfg, c.sc.ChanCap, k2Short(c.names(hist, op))),
+		Case: k2Replay{c.sc, c.names(hist, op)}}
+	if c.remote {
+		// a worker process hands its violations to the coordinator, which records them in the order of
+		// the breadth-first search: the recorded history of a fingerprint is one of the shortest
+		c.viols = append(c.viols, v)
+		return
+	}
+	c.r.Violation(v.FP, v.What, v.Case)
+}
+
+type k2Viol struct {
+	FP   string   `json:"fp"`
+	What string   `json:"what"`
+	Case k2Replay `json:"case"`
 }
 
 var k2AllFlags = func() []engine.WorkSpaceStateFlags {
@@ -588,6 +613,9 @@ func (c *k2Ctx) drain(k *k2Sys, hist []int, op int) {
 			outcome = "deadlock:state-lock-never-released"
 			c.viol("deadlock/state-lock-never-released", "no-call-blocked-outside-the-state-lock", fmt.Sprintf("calls that never return: %v; every blocked call waits for the state lock and no call holds it", pend), hist, op)
 		case send:
+			if running == "stopped" {
+				site += "+keeper-stopped" // no plotter exists that could ever receive
+			}
 			outcome = "deadlock:" + site
 			c.viol("deadlock/send-under-stateLock", site, fmt.Sprintf("calls that never return: %v; blocked outside the state lock: %s (keeper %s; the request channel is full, the sender holds the state lock, nobody makes room)", pend, site, running), hist, op)
 		default:
@@ -682,13 +710,13 @@ func (c *k2Ctx) try1(hist []int, op int) (string, []int, bool, bool) {
 	}
 	en := k.enabled(c.sc.Alphabet, c.sc.MaxChan, c.sc.MaxInFlight)
 	key := k.stateKey(blocked, strings.Join(c.names(hist, op), ","))
-	if len(en) == 0 || len(all) > c.sc.Horizon {
-		if c.checkC13 {
-			c.drain(k, hist, op)
-		}
-		if len(en) == 0 {
-			return key, nil, false, false
-		}
+	if c.checkC13 {
+		// from EVERY reached state (not only where the search ends) everything is let run out; the
+		// instance is discarded afterwards, so this does not disturb the search
+		c.drain(k, hist, op)
+	}
+	if len(en) == 0 {
+		return key, nil, false, false
 	}
 	var ops []int
 	for _, e := range en {
@@ -740,6 +768,7 @@ type k2Res struct {
 	Key    string   `json:"key"`
 	Ops    []string `json:"ops"`
 	Expand bool     `json:"expand"`
+	Viols  []k2Viol `json:"viols,omitempty"`
 }
 
 type k2Conn struct {
@@ -770,6 +799,7 @@ func k2Serve(r *vk.Run, prop string, scenarios []k2Scenario, c09, c13 bool, rule
 	ctxs := make([]*k2Ctx, len(scenarios))
 	for i, sc := range scenarios {
 		ctxs[i] = k2NewCtx(r, prop, sc, c09, c13)
+		ctxs[i].remote = true
 	}
 	for {
 		line, err := rd.ReadBytes('\n')
@@ -794,7 +824,8 @@ func k2Serve(r *vk.Run, prop string, scenarios []k2Scenario, c09, c13 bool, rule
 			r.Eval(1)
 		}
 		key, ops, expand := c.try(hist, op)
-		res := k2Res{Key: key, Expand: expand}
+		res := k2Res{Key: key, Expand: expand, Viols: c.viols}
+		c.viols = nil
 		for _, o := range ops {
 			res.Ops = append(res.Ops, c.acts[o].String())
 		}
@@ -906,6 +937,9 @@ func k2Run(r *vk.Run, prop string, scenarios []k2Scenario, c09, c13 bool, rule s
 				return k2Res{}, false
 			}
 			pool <- w
+			for _, v := range res.Viols {
+				r.Violation(v.FP, v.What, v.Case)
+			}
 			return res, true
 		}
 	}
@@ -932,6 +966,16 @@ func k2Run(r *vk.Run, prop string, scenarios []k2Scenario, c09, c13 bool, rule s
 				mu.Lock()
 				defer mu.Unlock()
 				return names[i]
+			}
+			if sc.Script != nil {
+				n := len(sc.Script)
+				if _, ok := rpc(k2Job{Sc: si, Hist: sc.Script[:n-1], Op: sc.Script[n-1]}); !ok {
+					break
+				}
+				states++
+				trans += int64(n)
+				per = append(per, fmt.Sprintf("%s: family=%s initial=%s cfg=%s chan_cap=%d scripted %d actions, then drained (see terminal_outcomes)", sc.Name, sc.Family, sc.Initial, sc.Cfg, sc.ChanCap, n))
+				continue
 			}
 			init, ok := rpc(k2Job{Sc: si})
 			if !ok {
@@ -1025,14 +1069,22 @@ func TestVerifC09Chia(t *testing.T) {
 		scs = append(scs, k2Scenario{Name: fmt.Sprintf("%s-%s-%s", fam, init, cfg), Family: fam, Initial: init, Cfg: cfg, ChanCap: 8,
 			MaxChan: maxChan, Horizon: depth - 1, MaxInFlight: 1, Alphabet: alpha})
 	}
-	// family (a): production-reachable
+	// family (a): production-reachable. Depth bound 20 is never reached for two workspaces: the search
+	// ends when no new canonical state appears (whole reachable state space of the scenario).
 	for _, cfg := range []string{"none", "mine", "plot"} {
-		add("a", "YY", cfg, vk.Pick(r, 6, 8), 2, k2Alphabet(2, k2BulkA, true, true, nil))
+		add("a", "YY", cfg, 20, 2, k2Alphabet(2, k2BulkA, true, true, nil))
 	}
-	add("a", "YYY", "mine", vk.Pick(r, 5, 7), 2, k2Alphabet(3, map[string][]engine.WorkSpaceStateFlags{"mine": {engine.SFAll}, "stop": {engine.SFAll}}, false, true, nil))
+	yyy := map[string][]engine.WorkSpaceStateFlags{"mine": {engine.SFAll}, "stop": {engine.SFAll}}
+	add("a", "YYY", "mine", vk.Pick(r, 7, 20), 2, k2Alphabet(3, yyy, false, true, nil))
+	if r.Thorough() {
+		add("a", "YYY", "none", 20, 2, k2Alphabet(3, k2BulkA, true, true, nil))
+	}
 	// family (b): registered spaces (not reachable from NewWorkSpace)
-	add("b", "RY", "none", vk.Pick(r, 6, 8), 2, k2Alphabet(2, k2BulkB, false, true, nil))
-	add("b", "RR", "none", vk.Pick(r, 6, 8), 2, k2Alphabet(2, k2BulkB, false, false, nil))
+	add("b", "RY", "none", vk.Pick(r, 7, 24), 2, k2Alphabet(2, k2BulkB, false, true, nil))
+	add("b", "RR", "none", vk.Pick(r, 6, 9), 2, k2Alphabet(2, k2BulkB, false, false, nil))
+	if r.Thorough() {
+		add("b", "RRY", "none", 6, 2, k2Alphabet(3, nil, false, false, nil))
+	}
 	k2Run(r, "C09", k2Only(scs), true, false,
 		"explicit-state search (BFS by replay on fresh instances, canonical-state pruning) over the real skchia.SpaceKeeper with a fake plot database: actions = ActOnWorkSpace(plot/mine/stop/remove/delete) on each of 2-3 workspaces and on an unknown id, ActOnWorkSpaces for several flag sets, keeper Stop/Start, and the release of each plotter gate (idle, popped, step1.done, plot.returned, space.done); reference model = map workspace -> (state, used, deleted, asked) following the documented transition table; in every reached state: exactly-one-state and index consistency, state/used/list agree with the model, at most one plotting, all 16 flag filters agree between WorkSpaceIDs/WorkSpaceInfos/model, GetQualities/GetQualitiesReader(SFMining) offer exactly the used mining spaces (and for every other flag set exactly the spaces in those states; a stopped keeper offers nothing), returned errors equal the model's, every plotter-made state change is a documented edge, a stopped or never-asked space does not enter plotting/mining until asked again")
 }
@@ -1045,9 +1097,10 @@ func TestVerifC13Chia(t *testing.T) {
 		scs = append(scs, k2Scenario{Name: fmt.Sprintf("%s-%s-%s-cap%d", fam, init, cfg, cap), Family: fam, Initial: init, Cfg: cfg, ChanCap: cap,
 			MaxChan: -1, Horizon: depth - 1, MaxInFlight: 2, Alphabet: alpha})
 	}
-	d := vk.Pick(r, 6, 7)
+	d := 6
 	// family (a): searched until no new canonical state appears (depth bound 20 is not reached)
 	add("a", "YY", "mine", 1, 20, k2Alphabet(2, nil, false, true, queries))
+	add("a", "YY", "plot", 1, 20, k2Alphabet(2, nil, false, true, queries))
 	add("a", "YY", "none", 1, 20, k2Alphabet(2, nil, false, true, queries))
 	// family (b)
 	small := func(n int) []k2Action { // requests that queue, one stop/remove, two queries, keeper stop/start
@@ -1071,6 +1124,18 @@ func TestVerifC13Chia(t *testing.T) {
 			add("b", init, "none", cap, d+cap, alpha)
 		}
 	}
+	if r.Thorough() {
+		// the finding at the production constant: the plotter has popped a request and is about to take
+		// the lock for step 1; 1024 plot requests fill the channel, request 1025 blocks holding the
+		// (read) lock, the plotter cannot take the write lock, nobody receives any more
+		script := []string{"plot(a)", "gate:idle"}
+		for i := 0; i < plotterMaxChanSize+1; i++ {
+			script = append(script, "plot(b)")
+		}
+		script = append(script, "gate:popped")
+		scs = append(scs, k2Scenario{Name: "b-RR-scripted-cap1024", Family: "b", Initial: "RR", Cfg: "none", ChanCap: plotterMaxChanSize, MaxChan: -1,
+			Horizon: len(script), MaxInFlight: 2, Alphabet: k2Alphabet(2, nil, false, true, nil), Script: script})
+	}
 	k2Run(r, "C13", k2Only(scs), false, true,
-		"explicit-state search over the real skchia.SpaceKeeper with a fake plot database under the quiescence scheduler: control requests (plot/mine/stop/remove/delete), queries (WorkSpaceIDs, WorkSpaceInfos, GetQualities, GetQualitiesReader), keeper Stop and Start from up to 2 callers in flight, and the plotter gates, in every order up to a depth bound; request channel of capacity 0, 1, 2 standing for 'however many requests are outstanding'; every execution that ends (no action enabled, or depth bound) is drained (all gates released, keeper Stop issued): a call or Stop that has not returned then is blocked for ever (decided from goroutine wait reasons, never from time); panics in any call are violations")
+		"explicit-state search over the real skchia.SpaceKeeper with a fake plot database under the quiescence scheduler: control requests (plot/mine/stop/remove/delete), queries (WorkSpaceIDs, WorkSpaceInfos, GetQualities, GetQualitiesReader), keeper Stop and Start from up to 2 callers in flight, and the plotter gates, in every order up to a depth bound; request channel of capacity 0, 1, 2 standing for 'however many requests are outstanding'; from every reached state the execution is drained (all gates released, keeper Stop issued, gates released again): a call or Stop that has not returned then is blocked for ever (decided from goroutine wait reasons, never from time); panics in any call are violations")
 }
